@@ -723,8 +723,9 @@ class Searcher(object):
             c = collectors.CollapseCollector(c, collapse, limit=collapse_limit,
                                              order=collapse_order)
 
-        # Filtering wraps last so it sees the docs first
-        if filter or mask:
+        # Filtering wraps last so it sees the docs first. (An empty set or an
+        # empty Results object is a filter too: it allows nothing)
+        if filter is not None or mask is not None:
             c = collectors.FilterCollector(c, filter, mask)
         return c
 
